@@ -888,13 +888,69 @@ func c13RawKeys(c *oracleCtx) {
 	})
 }
 
+// c13TypedNativeNils: a nil entry of a natively typed container slice / map ([]Object, []List, map[string]Object,
+// map[string]List) is the nil kind in every export, exactly as a nil inside []any / map[string]any (round O/P, C13-P)
+func c13TypedNativeNils(c *oracleCtx) {
+	typedNativeNils(c)
+	c.check("native:typed-nil-entries", true, func() string {
+		var nilO Object
+		var nilL List
+		bad := ""
+		if catch(func() {
+			lists := map[string]List{
+				"[]Object":     NewListFrom([]Object{nilO, NewObject("a", 1), nilO}),
+				"[]List":       NewListFrom([]List{nilL, NewList("a", 1), nilL}),
+				"[]any":        NewListFrom([]any{nil, NewObject("a", 1), nil}),
+				"Add([]List)":  NewList([]List{nil, NewList("a", 1), nil}).GetList(0),
+				"Set([]Object": NewObject("k", []Object{nil, NewObject("a", 1), nil}).GetList("k"),
+			}
+			for name, l := range lists {
+				want := []any{nil, nativeOf(l.Get(1)), nil}
+				ns, sl := l.NativeSlice(), l.Slice()
+				if !reflect.DeepEqual(ns, want) || hasContainer(ns) {
+					bad = fmt.Sprintf("NewListFrom(%s with nil entries).NativeSlice() = %v, want %v", name, ns, want)
+				}
+				if len(sl) != 3 || sl[0] != nil || sl[2] != nil || !same(sl[1], l.Get(1)) || l.Get(0) != nil {
+					bad = fmt.Sprintf("NewListFrom(%s with nil entries).Slice() does not hold what Get returns", name)
+				}
+			}
+			objs := map[string]Object{
+				"map[string]Object":      NewObjectFrom(map[string]Object{"n": nilO, "o": NewObject("a", 1)}),
+				"map[string]List":        NewObjectFrom(map[string]List{"n": nilL, "o": NewList("a", 1)}),
+				"map[string]any":         NewObjectFrom(map[string]any{"n": nil, "o": NewList("a", 1)}),
+				"Add(map[string]Object)": NewList(map[string]Object{"n": nil, "o": NewObject("a", 1)}).GetObject(0),
+				"Set(map[string]List)":   NewObject("k", map[string]List{"n": nil, "o": NewList("a", 1)}).GetObject("k"),
+			}
+			for name, o := range objs {
+				want := map[string]any{"n": nil, "o": nativeOf(o.Get("o"))}
+				nd, d := o.NativeDict(), o.Dict()
+				if !reflect.DeepEqual(nd, want) || hasContainer(nd) {
+					bad = fmt.Sprintf("NewObjectFrom(%s with a nil entry).NativeDict() = %v, want %v", name, nd, want)
+				}
+				if v, ok := d["n"]; len(d) != 2 || !ok || v != nil || !same(d["o"], o.Get("o")) || o.Get("n") != nil {
+					bad = fmt.Sprintf("NewObjectFrom(%s with a nil entry).Dict() does not hold what Get returns", name)
+				}
+			}
+			// one level further down
+			deep := NewListFrom([]any{[]Object{nilO}, map[string]List{"n": nilL}})
+			if !reflect.DeepEqual(deep.NativeSlice(), []any{[]any{nil}, map[string]any{"n": nil}}) {
+				bad = "a nil entry of a typed native nested inside []any is not exported as nil"
+			}
+		}) {
+			return "an export panics on a container built from a typed native slice / map with a nil entry"
+		}
+		return bad
+	})
+}
+
 func c13Oracle(c *oracleCtx) {
 	c09DeriveTwice(c) // every export (Slice, Dict, Native*, Keys, Values ...) taken twice is independent: also of empties
 	c13ExportsAreGet(c)
 	c13RawKeys(c)
+	c13TypedNativeNils(c)
 	trees := smallTrees()
 	c.rule = "small trees and native trees: Native* contain no container and are deep-equal to the content; NewXFrom(native).Native*() reproduces the input; Dict/Slice are one-level snapshots; mutating exports/sources never changes the container"
-	c.bound = fmt.Sprintf("%d container trees + 12 native trees", len(trees))
+	c.bound = fmt.Sprintf("%d container trees + 12 native trees + 10 typed natives with nil entries", len(trees))
 	for _, tg := range trees {
 		tg := tg
 		c.check("native:"+tg.id, true, func() string {
